@@ -32,12 +32,22 @@ struct Worker {
 }
 
 fn spawn_worker(exe: &std::path::Path) -> Result<Worker, MachineryError> {
-    let mut child = Command::new(exe)
+    let mut child = Command::new(exe);
+    child
         .arg("worker")
         .stdin(Stdio::piped())
         .stdout(Stdio::piped())
         .stderr(Stdio::null())
-        .env("RAYON_NUM_THREADS", "1")
+        .env("RAYON_NUM_THREADS", "1");
+    // a worker must not outlive the check (a hanging subject spins forever): the kernel kills it when its parent dies
+    unsafe {
+        use std::os::unix::process::CommandExt;
+        child.pre_exec(|| {
+            libc::prctl(libc::PR_SET_PDEATHSIG, libc::SIGKILL);
+            Ok(())
+        });
+    }
+    let mut child = child
         .spawn()
         .map_err(|e| MachineryError(format!("cannot spawn worker: {}", e)))?;
     let out = child.stdout.take().unwrap();
